@@ -6,13 +6,13 @@ from harness import common, codecio, schemaio
 from harness.common import Stream, hexb
 
 PID = "C12"
-LEAN_MODULES = ["Astm.Proofs.C12", "Astm.State.C12"]
+LEAN_MODULES = ["Astm.Proofs.C12", "Astm.State.C12", "Astm.Surface.C12"]
 THEOREMS = [
     "Astm.C12.schemas_eq_contract", "Astm.C12.e1394_doc_eq_contract", "Astm.C12.generic_names_follow_e1394_doc",
     "Astm.C12.instruments_keep_e1394_prefix", "Astm.C12.no_nested_components", "Astm.C12.wrap_keys_in_wire_order",
     "Astm.C12.wrap_is_positional", "Astm.C12.text_field_lossless", "Astm.C12.unused_field_is_null",
     "Astm.C12.component_keys_in_order", "Astm.C12.repeated_occurrences_preserved", "Astm.C12.example_wrap",
-    "Astm.C12.anchored_code_keeps_no_other_state",
+    "Astm.C12.anchored_code_keeps_no_other_state", "Astm.C12.anchored_code_keeps_its_signatures",
 ]
 RULE = ("for every record class reachable from every instrument module's mapping and the default mapping (contract "
         "tables): conformant wire records generated from the class's own declaration (any subset of fields present, "
